@@ -39,9 +39,13 @@ func appOf(f *fields) channel.App {
 	return channel.NewMockApp(gen.AppIDOf(f.appDef))
 }
 
+// nonceOf: the nonce ranges over every byte length 0..k+1 in every tier (its
+// encoding is length-dependent, so pairs of different lengths matter).
+func nonceOf(k int) *big.Int { return rt.NondetBig(k + 1) }
+
 func symFields(n int) *fields {
 	k := rt.Bound("K", 1)
-	f := &fields{dur: rt.NondetU64(), appKind: rt.Choice(2), nonce: gen.BigK(k), ledger: rt.NondetBool(), virtual: rt.NondetBool()}
+	f := &fields{dur: rt.NondetU64(), appKind: rt.Choice(2), nonce: nonceOf(k), ledger: rt.NondetBool(), virtual: rt.NondetBool()}
 	rt.Assume(f.dur != 0)
 	for i := 0; i < n; i++ {
 		f.parts = append(f.parts, gen.Address(k))
@@ -86,7 +90,7 @@ func variant(f *fields) *fields {
 		g.dur = rt.NondetU64()
 		rt.Assume(g.dur != 0)
 	case 1:
-		g.nonce = gen.BigK(k)
+		g.nonce = nonceOf(k)
 	case 2:
 		i := rt.Choice(len(g.parts))
 		g.parts[i] = &simwallet.Address{X: gen.BigK(k), Y: g.parts[i].Y}
